@@ -939,10 +939,11 @@ def monitor_lin(line):
             if not abs(sm - al2[K]) <= 64 * EPSM * (C + 1) * K: return ("constraints", "%s: stored sum %r but sum_c alpha(c) = %r" % (typ, al2[K], sm)), None
             if not al2[K] <= C: return ("constraints", "%s: stored sum %r exceeds C=%r" % (typ, al2[K], C)), None
         st = lin_wstep(typ, K, y, mu)
+        smu = math.fsum(abs(m) for m in mu)          # step(c) is a difference of sums of the mu's: its rounding error scales with sum|mu|, not with |step(c)|
         for c in range(K):
             for j in range(d):
                 want = w[c * d + j] + st[c] * x[j]
-                if not abs(w2[c * d + j] - want) <= 16 * EPSM * (abs(w[c * d + j]) + abs(st[c] * x[j]) + 1e-300):
+                if not abs(w2[c * d + j] - want) <= 16 * EPSM * (abs(w[c * d + j]) + (K + 2) * smu * abs(x[j]) + 1e-300):
                     return ("bookkeeping", "%s: w(%d,%d)=%r after the step, w + step(mu)*x = %r" % (typ, c, j, w2[c * d + j], want)), None
         note = None
         if kkt > 0.0 and typ != "MMR":
